@@ -95,6 +95,9 @@ chapol_decrypt(br_sslrec_chapol_context *cc,
 	for (u = 0; u < 16; u ++) {
 		bad |= tag[u] ^ buf[len + u];
 	}
+#ifdef BR_VERIF
+	BR_VERIF_PUBLIC(&bad, sizeof bad);
+#endif
 	if (bad) {
 		return NULL;
 	}
